@@ -360,7 +360,12 @@ def _agents_extras():
             Dx((Sx("p"), Lx(P("p")))), Dx((Tx(Sx("g")), G("g"))), Dx((Sx(""), P(""))), Dx((Sx(""), G(""))),
             Dx((Sx("g"), Dx((Sx("g"), G("g"))))), Dx((Sx("G"), G("g"))), Dx((Sx("g "), G("g"))),
             Dx((Sx("g"), G("g")), (Sx("p"), P("p")), (Sx("h"), G("h"))), Lx(G("g")), G("g"), SETx(Sx("g")),
-            Dx((TRUE, G("g"))), Dx((Sx("g"), TRUE))]
+            Dx((TRUE, G("g"))), Dx((Sx("g"), TRUE)),
+            # the keys are exactly the ids, but attached to the wrong agents (the pairing is what is checked)
+            Dx((Sx("g"), G("h")), (Sx("h"), G("g"))), Dx((Sx("p"), P("q")), (Sx("q"), P("p"))),
+            Dx((Sx("g"), G("h")), (Sx("h"), G("i")), (Sx("i"), G("g"))),
+            Dx((Sx("p"), P("p")), (Sx("g"), G("h")), (Sx("h"), G("g"))),
+            Dx((Sx("g"), G("g")), (Sx("h"), G("h")), (Sx("i"), G("i")))]
 
 
 def _encset_values():
@@ -585,7 +590,28 @@ class ConfigProp(core.Prop):
                     q = bool(grid.query(agents[a][0], (0, 0)))
                     p = bool(grid.place(agents[a][0], (0, 0)))
                     bits.append([q, p])
-            if any(q != p for q, p in bits):
+            # piles: a cell holding B1 and B2 (in either order of arrival) is available to A exactly when a cell
+            # holding B1 alone and a cell holding B2 alone both are (consistency of the real Grid with itself)
+            thirds = {e: GridWorldAgent(id=f"z{e}", encoding=e) for e in univ}
+            nu = len(univ)
+            pile_bad = None
+            for ia, a in enumerate(univ[:4]):
+                for i1, b1 in enumerate(univ[:4]):
+                    for i2, b2 in enumerate(univ[:4]):
+                        if not bits[i1 * nu + i2][0]:
+                            continue                     # B2 may not join B1: no such pile
+                        grid.reset()
+                        assert grid.place(agents[b1][1], (0, 0)) is True
+                        if grid.place(thirds[b2], (0, 0)) is not True:
+                            continue
+                        got = bool(grid.query(agents[a][0], (0, 0)))
+                        want = bits[ia * nu + i1][0] and bits[ia * nu + i2][0]
+                        if got != want and pile_bad is None:
+                            pile_bad = [a, b1, b2, int(got), int(want)]
+            if pile_bad is not None:
+                implv = ["pile-availability-is-not-the-conjunction", pile_bad]
+                impl_closed, impl_bits = "none", []
+            elif any(q != p for q, p in bits):
                 implv = ["query-place-differ", [[int(q), int(p)] for q, p in bits]]
                 impl_closed, impl_bits = "none", []
             else:
